@@ -340,6 +340,27 @@ func runC11History(rc *RunCtx) {
 			{"MakePrimary", 2, sName, func() sdk.Msg {
 				return &rnstypes.MsgMakePrimary{Creator: sb, Name: pickS(ownerName, ownerName2, ownerExpired, ownerExpired, strangerName, strings.ToUpper(ownerName))}
 			}},
+			{"PostFile", 2, sFile, func() sdk.Msg {
+				// the owner posts a new file in this block; the stranger then posts, in the same block, a file with the same
+				// content root (or a leading part of it) in its own name, paid at once. Only the stranger's own records may appear
+				m2 := randBytes(rc.Rng, 64)
+				// (the owner pays at once, so that none of its baseline records changes; the stranger posts against a plan,
+				// bought here if it has none, so that no record without an owner - a payment gauge - appears in its step)
+				c.DeliverAs(O, &storagetypes.MsgPostFile{Creator: ob, Merkle: m2, FileSize: 2048, MaxProofs: 2, Expires: c.Height + 30000, Note: "{}"})
+				if !sFile {
+					if r := c.DeliverAs(S, &storagetypes.MsgBuyStorage{Creator: sb, ForAddress: sb, DurationDays: 60, Bytes: 2_000_000_000_000, PaymentDenom: "ujkl"}); r.OK() {
+						sFile = true
+					}
+				}
+				sm := m2
+				switch rc.Intn(4) {
+				case 0:
+					sm = m2[:32]
+				case 1:
+					sm = m2[:1]
+				}
+				return &storagetypes.MsgPostFile{Creator: sb, Merkle: sm, FileSize: 1024, MaxProofs: 1, Note: "{}"}
+			}},
 			{"DeleteFile", 3, sFile, func() sdk.Msg {
 				if sFile && rc.Chance(0.25) {
 					return &storagetypes.MsgDeleteFile{Creator: sb, Merkle: sMerkle, Start: sStart}
